@@ -27,6 +27,15 @@ def addAll (b : SecBuf) (num : BitVec 32) : List (BitVec 16) → M (SecBuf × Bi
 
 end Versym
 
+namespace Modinfo
+
+/-- a sequence of `add_attribute` calls on one accessor (section state and cached vector) -/
+def addAll (b : SecBuf) (c : List Attr) : List Attr → M (SecBuf × List Attr)
+  | [] => pure (b, c)
+  | a :: as => do let r ← addAttribute b c a.1 a.2; addAll r.2.1 r.2.2 as
+
+end Modinfo
+
 namespace C14
 open SecBuf C07
 
@@ -356,6 +365,141 @@ theorem versym_read_witness :
 
 example : needConv .lsb = false := rfl
 example : Bound .c64 (2 * [1#16, 2#16].length) := by simp [Bound]
+
+/-! ## module information -/
+
+theorem encodeModinfo_append (xs ys : List Modinfo.Attr) :
+    Spec.encodeModinfo (xs ++ ys) = Spec.encodeModinfo xs ++ Spec.encodeModinfo ys := by
+  induction xs with
+  | nil => simp [Spec.encodeModinfo]
+  | cons x xs ih => simp [Spec.encodeModinfo, ih]
+
+/-- **add_attribute** : appends the record `field=value\0` to the section, remembers the pair and
+    returns the (32-bit) position of the record -/
+theorem modinfo_add (b : SecBuf) (hI : b.Inv) (c : List Modinfo.Attr) (f v : Bytes)
+    (hb : Bound b.cls (b.content.length + (Spec.encodeAttr (f, v)).length)) :
+    ∃ b', Modinfo.addAttribute b c f v = .ok (BitVec.setWidth 32 b.size, b', c ++ [(f, v)]) ∧ b'.Inv ∧
+      b'.cls = b.cls ∧ b'.content = b.content ++ Spec.encodeAttr (f, v) := by
+  obtain ⟨b', h1, r, cl, w⟩ := append_refines b hI (Spec.encodeAttr (f, v)) hb
+  refine ⟨b', ?_, Or.inl r, cl, w⟩
+  have : f ++ 61 :: (v ++ [0]) = Spec.encodeAttr (f, v) := rfl
+  simp only [Modinfo.addAttribute, mod_add_guard, if_true, this, h1, bind, Except.bind, pure, Except.pure,
+    mod_add_pos]
+
+theorem modinfo_adds (b : SecBuf) (hI : b.Inv) (c as : List Modinfo.Attr)
+    (hb : Bound b.cls (b.content.length + (Spec.encodeModinfo as).length)) :
+    ∃ b', Modinfo.addAll b c as = .ok (b', c ++ as) ∧ b'.Inv ∧ b'.cls = b.cls ∧
+      b'.content = b.content ++ Spec.encodeModinfo as := by
+  induction as generalizing b c with
+  | nil => exact ⟨b, by simp [Modinfo.addAll, pure, Except.pure], hI, rfl, by simp [Spec.encodeModinfo]⟩
+  | cons a as ih =>
+    obtain ⟨f, v⟩ := a
+    simp only [Spec.encodeModinfo, List.length_append] at hb
+    obtain ⟨b1, e1, i1, c1, v1⟩ := modinfo_add b hI c f v (bound_mono hb (by omega))
+    obtain ⟨b2, e2, i2, c2, v2⟩ := ih b1 i1 (c ++ [(f, v)]) (by
+      rw [c1, v1]; simp only [List.length_append]; exact bound_mono hb (by omega))
+    refine ⟨b2, ?_, i2, by rw [c2, c1], ?_⟩
+    · simp only [Modinfo.addAll, e1, bind, Except.bind]
+      rw [e2]; simp
+    · rw [v2, v1]; simp [Spec.encodeModinfo]
+
+/-- **modinfo_parse** : the constructor's parser, run on any reachable section (edited, loaded
+    eagerly, loaded lazily) whose content is the concatenation of `field=value\0` records with
+    fields free of `=`/NUL and values free of NUL, yields exactly those attributes in order —
+    without reading outside the section -/
+theorem modinfo_parse (b : SecBuf) (hI : b.Inv) (as : List Modinfo.Attr)
+    (hc : b.content = Spec.encodeModinfo as) (hok : ∀ a ∈ as, Spec.AttrOk a) :
+    Modinfo.parse b = .ok as := by
+  have hl := content_length hI
+  obtain ⟨_, ⟨h1, h2⟩ | ⟨a, hd, h2, h3⟩⟩ := getData_content hI
+  · have : as = [] := by
+      have := encodeModinfo_length_ge as
+      rw [← hc, h2] at this
+      exact List.eq_nil_of_length_eq_zero (by simpa using this)
+    simp [Modinfo.parse, h1, this, pure, Except.pure]
+  · have hsplit : a = [] ++ (List.replicate 0 0 ++ (Spec.encodeModinfo as ++ a.drop b.size.toNat)) := by
+      rw [← hc, ← h3]; simp
+    have := parseLoop_spec as [] (a.drop b.size.toNat) 0 b.size 0 [] (b.size.toNat + 2)
+      (by rw [← hc, hl]; simp) rfl hok (by
+        have := encodeModinfo_length_ge as
+        rw [← hc, hl] at this; omega)
+    rw [← hsplit] at this
+    simp only [Modinfo.parse, hd, this, List.nil_append]
+
+theorem getByName_eq_lookupFirst (as : List Modinfo.Attr) (f : Bytes) :
+    Modinfo.getByName as f = Spec.lookupFirst as f := by
+  induction as with
+  | nil => rfl
+  | cons a as ih =>
+    simp only [Modinfo.getByName, Spec.lookupFirst, ih]
+    by_cases h : f = a.1
+    · simp [h]
+    · have : ¬ a.1 = f := fun e => h e.symm
+      simp [h, this]
+
+theorem getByIndex_eq (as : List Modinfo.Attr) (hl : as.length < 18446744073709551616) (no : BitVec 32) :
+    Modinfo.getByIndex as no = as[no.toNat]? := by
+  have hn := no.isLt
+  simp only [Nat.reducePow] at hn
+  unfold Modinfo.getByIndex
+  by_cases h : no.toNat < as.length
+  · have : mod_get_guard no (BitVec.ofNat 64 as.length) = true := by
+      simp only [mod_get_guard, BitVec.ult, BitVec.toNat_setWidth, BitVec.toNat_ofNat, Nat.reducePow,
+        decide_eq_true_eq]
+      omega
+    simp [this]
+  · have : mod_get_guard no (BitVec.ofNat 64 as.length) = false := by
+      simp only [mod_get_guard, BitVec.ult, BitVec.toNat_setWidth, BitVec.toNat_ofNat, Nat.reducePow,
+        decide_eq_false_iff_not]
+      omega
+    simp only [this, Bool.false_eq_true, if_false]
+    exact (List.getElem?_eq_none (by omega)).symm
+
+/-- **modinfo_roundtrip** : every `field=value` attribute added to a fresh module-info section is
+    returned unchanged by index — by the accessor that added it *and* by a new accessor that parses
+    the section bytes again — in all 4 configurations (the byte order plays no role) -/
+theorem modinfo_roundtrip (cls : Cls) (ty : BitVec 32) (hty : ty ≠ BitVec.ofNat 32 SHT_NOBITS)
+    (as : List Modinfo.Attr) (hok : ∀ a ∈ as, Spec.AttrOk a)
+    (hb : Bound cls (Spec.encodeModinfo as).length) :
+    ∃ b', Modinfo.addAll (SecBuf.fresh cls ty) [] as = .ok (b', as) ∧
+      b'.content = Spec.encodeModinfo as ∧
+      Modinfo.parse b' = .ok as ∧
+      ∀ (k : BitVec 32), Modinfo.getByIndex as k = as[k.toNat]? := by
+  obtain ⟨hI, hc⟩ := fresh_inv cls ty hty
+  obtain ⟨b', e1, i1, _, v1⟩ := modinfo_adds (SecBuf.fresh cls ty) hI [] as (by
+    rw [hc]; simpa [SecBuf.fresh] using hb)
+  rw [hc, List.nil_append] at v1
+  have hlen : as.length < 18446744073709551616 := by
+    have h1 := encodeModinfo_length_ge as
+    have h2 := bound_lt hb
+    omega
+  exact ⟨b', by simpa using e1, v1, modinfo_parse b' i1 as v1 hok, getByIndex_eq as hlen⟩
+
+/-- **modinfo_by_name** : lookup by field name returns the value of the first attribute with that
+    name (reference semantics `Spec.lookupFirst`), for the adding accessor and for a re-parsing one -/
+theorem modinfo_by_name (b : SecBuf) (hI : b.Inv) (as : List Modinfo.Attr)
+    (hc : b.content = Spec.encodeModinfo as) (hok : ∀ a ∈ as, Spec.AttrOk a) (f : Bytes) :
+    ∃ c, Modinfo.parse b = .ok c ∧ Modinfo.getByName c f = Spec.lookupFirst as f := by
+  exact ⟨as, modinfo_parse b hI as hc hok, getByName_eq_lookupFirst as f⟩
+
+/-- … after save and reload -/
+theorem modinfo_parse_reloaded (cls : Cls) (ty : BitVec 32) (lazy : Bool) (ss : BitVec 64)
+    (hty : ty ≠ BitVec.ofNat 32 SHT_NOBITS) (hty0 : ty ≠ BitVec.ofNat 32 SHT_NULL)
+    (as : List Modinfo.Attr) (hok : ∀ a ∈ as, Spec.AttrOk a)
+    (hlen : (Spec.encodeModinfo as).length < 18446744073709551616) :
+    Modinfo.parse (if lazy then SecBuf.loadedLazy cls ty (Spec.encodeModinfo as) ss
+                   else SecBuf.loadedEager cls ty (Spec.encodeModinfo as) ss) = .ok as := by
+  cases lazy
+  · obtain ⟨hI, hc⟩ := loaded_inv cls ty (Spec.encodeModinfo as) ss hty hlen
+    exact modinfo_parse _ hI as hc hok
+  · obtain ⟨hI, hc⟩ := lazy_inv cls ty (Spec.encodeModinfo as) ss hty hty0 hlen
+    exact modinfo_parse _ hI as hc hok
+
+/-- the parser's quirk for a record without `=` (outside the property: `npos + 1` wraps to 0) -/
+theorem modinfo_no_eq_quirk : Modinfo.splitRecord [97, 98] = ([97, 98], [97, 98]) := by decide
+
+example : Spec.AttrOk ([108, 105], [71, 61, 80]) := by
+  constructor <;> intro c hc <;> simp at hc <;> rcases hc with rfl | rfl | rfl <;> decide
 
 /-! non-vacuity -/
 example : Bound .c32 (Arr.W.w8.bytes * [1#64, 2#64, 0xffffffffffffffff#64].length) := by
